@@ -30,7 +30,7 @@ LEVEL = 'exploration'
 BUDGET_S = {'quick': 40, 'thorough': 600}
 FLOORS = {'quick': {'tasks': 530, 'must_remove_checked': 5500, 'must_keep_checked': 14000,
                     'foreign_files_checked': 8000, 'strategy_directory_walk': 70, 'strategy_bulk_delete': 100,
-                    'strategy_tile_walk': 330, 'vanished_under_cleanup': 150, 'tile_walk_with_cache_refresh_rule': 40},
+                    'strategy_tile_walk': 330, 'vanished_under_cleanup': 150, 'tile_walk_with_cache_refresh_rule': 40, 'tasks_after_a_timeless_cache': 18},
           'thorough': {'tasks': 10000, 'must_remove_checked': 100000, 'must_keep_checked': 270000,
                        'foreign_files_checked': 160000, 'strategy_directory_walk': 1350,
                        'strategy_bulk_delete': 1750, 'strategy_tile_walk': 6600, 'vanished_under_cleanup': 2500}}
@@ -433,6 +433,9 @@ def build_case(run, spec):
             # the cache's own refresh rule (mapproxy.yaml, refresh_before) is about serving, not about what a cleanup
             # has to remove: half an hour to either side of the cleanup's threshold
             'cache_refresh': rng.choice([None, None, -1800, 1800]) if rbk in ('time', 'time_native', 'mtime') else None,
+            # a second cache without time stamps (mbtiles) listed before this one in the same cleanup section: for it the
+            # documented meaning of 'no remove_before' is 'remove everything'; that must not rub off on this cache
+            'timeless_first': bool(rbk == 'default' and backend not in TIMELESS and rng.random() < 0.6),
             # a concurrent remover (second cleanup, seeder rewriting a tile): some tile files vanish in the very
             # moment the cleanup looks at them
             'vanish': (spec['i'] * 7919 + 13) if (backend == 'file' and not link and spec['i'] % 3 == 0) else None}
@@ -786,6 +789,8 @@ def _execute(run, case, d):
         m = {'backend': backend, 'layout': layout, 'strategy': taken[0] if taken else strategy, 'obs': obs}
         if victims:
             m['files_vanish_under_cleanup'] = True
+        if case.get('timeless_first'):
+            m['after_timeless_cache_in_same_section'] = True
         if case.get('cache_refresh') is not None:
             m['cache_has_refresh_before'] = 'earlier' if case['cache_refresh'] < 0 else 'later'
         m.update(kw)
@@ -805,6 +810,8 @@ def _execute(run, case, d):
         ccache['refresh_before'] = {'time': local_str(rb['T'] + case['cache_refresh'], case['tz']).replace(' ', 'T')}
     mp = {'globals': {'cache': {'base_dir': base}}, 'services': {'demo': None}, 'grids': grids,
           'caches': {'c': ccache, 'o': ocache}}
+    if case.get('timeless_first'):
+        mp['caches']['a_timeless'] = {'sources': [], 'grids': [gname], 'cache': {'type': 'mbtiles', 'filename': 'a_timeless.mbtiles'}}
     mp_file = os.path.join(d, 'mapproxy.yaml')
     with open(mp_file, 'w') as f:
         yaml.safe_dump(mp, f)
@@ -822,6 +829,8 @@ def _execute(run, case, d):
         T0 = rb['T']
 
     cl = {'caches': ['c'], 'grids': [gname]}
+    if case.get('timeless_first'):
+        cl['caches'] = ['a_timeless', 'c']
     if case['levels_conf'] is not None:
         cl['levels'] = case['levels_conf']
     if rb['kind'] == 'remove_all':
@@ -1014,9 +1023,14 @@ def _execute(run, case, d):
     if rejected is None:
         if expect_reject:
             run.count('timeless_remove_before_not_rejected')
-        if len(tasks) != 1:
-            raise AssertionError('expected one cleanup task, got %d' % len(tasks))
-        task = tasks[0]
+        want_tasks = 2 if case.get('timeless_first') else 1
+        if len(tasks) != want_tasks:
+            raise AssertionError('expected %d cleanup task(s), got %d' % (want_tasks, len(tasks)))
+        task = tasks[-1]
+        if case.get('timeless_first'):
+            if tasks[0].md['cache_name'] != 'a_timeless' or task.md['cache_name'] != 'c':
+                raise AssertionError('unexpected task order %r' % ([t.md for t in tasks],))
+            run.hit('tasks_after_a_timeless_cache')
         got = os.path.normpath(cache_path_of(task.tile_manager.cache))
         if got != os.path.normpath(main_path):
             raise AssertionError('cache lives at %s, expected %s' % (got, main_path))
